@@ -152,7 +152,7 @@ func TestC15(t *testing.T) {
 		var hist []string
 		note := func(f string, a ...interface{}) { hist = append(hist, fmt.Sprintf(f, a...)) }
 		validVerified, mutationsChecked, republish, storedAtLinkKey, linkAtStorageKey, timePassed := 0, 0, 0, 0, 0, 0
-		discardedPublishes := 0
+		discardedPublishes, storedManyTimes := 0, 0
 
 		checkLinks := func(what string) {
 			for key, want := range modelLinks {
@@ -286,6 +286,40 @@ func TestC15(t *testing.T) {
 				}
 				checkLinks("after store")
 			},
+			"store_again_and_again": func(t *rapid.T) {
+				// the record under one storage key is replaced a dozen times and more (a corrected signature, a renewed
+				// certificate ...): verification always speaks about the record stored last
+				addr := addrs[rapid.IntRange(0, len(addrs)-1).Draw(t, "addr")]
+				ref := refIDs[rapid.IntRange(0, len(refIDs)-1).Draw(t, "ref")]
+				link, ok := modelLinks[sha256hex(ref)]
+				if !ok {
+					t.Skip("no payload link published for this reference id yet")
+				}
+				storageKey := sha256hex(addr + ":" + ref)
+				n := rapid.IntRange(9, 24).Draw(t, "times")
+				for i := 0; i < n; i++ {
+					key := c15Keys[rapid.IntRange(0, len(c15Keys)-1).Draw(t, fmt.Sprintf("key%d", i))]
+					sig := key.sign(sha256hex(addr + ":" + ref + ":" + link))
+					if rapid.Bool().Draw(t, fmt.Sprintf("tampered%d", i)) {
+						raw, _ := base64.StdEncoding.DecodeString(sig)
+						raw[len(raw)/2] ^= 0x01
+						sig = base64.StdEncoding.EncodeToString(raw)
+					}
+					js, _ := json.Marshal(map[string]string{"signature": sig, "algorithm": key.Alg, "certificate": key.CertPEM})
+					res, _ := RunSigMsg(v, &sigtypes.MsgStoreSignature{Creator: KeyAcc(2).Addr.String(), StorageKey: storageKey, SignatureJSON: string(js)})
+					if res.OK() {
+						modelSigs[storageKey] = c15Stored{Sig: sig, Alg: key.Alg, Cert: key.CertPEM, Timestamp: v.Ctx.BlockTime().String()}
+					}
+					if checkVerify(addr, ref, fmt.Sprintf("after store %d of %d under one key", i+1, n)) {
+						validVerified++
+					}
+					if i%4 == 3 {
+						v.Advance(6 * secNs)
+					}
+				}
+				storedManyTimes++
+				note("stored %d times under the key of addr=%q ref=%.8s", n, addr, ref)
+			},
 			"time_passes": func(t *rapid.T) {
 				// blocks go by (a day, a month, a year, five years): what a stored record says does not change with time
 				v.Advance([]int64{dayNs, 30 * dayNs, yearNs, 5 * yearNs}[rapid.IntRange(0, 3).Draw(t, "dt")])
@@ -334,6 +368,9 @@ func TestC15(t *testing.T) {
 		}
 		if storedAtLinkKey > 0 || linkAtStorageKey > 0 {
 			cl = append(cl, "link_and_signature_keys_coincide")
+		}
+		if storedManyTimes > 0 {
+			cl = append(cl, "record_replaced_9_to_24_times_under_one_key")
 		}
 		if discardedPublishes > 0 {
 			cl = append(cl, "publish_executed_and_discarded_before_the_real_one")
